@@ -101,8 +101,10 @@ BackSub(sys, q) ==          \* returns [x : 1..q -> value, nulldest : BOOLEAN]
                 base   == sys.b[i]
                 dest0  == IF base = NoVal THEN {} ELSE base
                 val    == XorSeq(<<dest0>> \o [ t \in 1 .. Cardinality(others) |-> acc.x[SetToSeq(others)[t]] ])
-            IN  [ x |-> [acc.x EXCEPT ![i] = IF base = NoVal /\ others = {} THEN NoVal ELSE val],
-                  nulldest |-> acc.nulldest \/ (base = NoVal /\ others # {}) ]
+            \* since fix 4d3dc82 a NULL constant term is replaced by a calloc'ed null symbol before it is
+            \* used as destination, so no NULL destination can occur; `nulldest' stays as a guard field
+            IN  [ x |-> [acc.x EXCEPT ![i] = val],
+                  nulldest |-> acc.nulldest ]
     IN  FoldLeft(step, [x |-> [ i \in 1 .. q |-> {} ], nulldest |-> FALSE], [ t \in 1 .. q |-> q + 1 - t ])
 
 FinishRec(p, st0, perm) ==
